@@ -444,9 +444,46 @@ def made_input(E, rng, cdir, maxlen=200000, multiblock=False):
     return compress(E, plain, args, cdir, "plain.tmp"), suffix, "xz %s of %s(%d)" % (" ".join(args), pk, len(plain))
 
 
+def aligned_input(E, rng, cdir):
+    """A VALID file whose compressed size is (a multiple of the tools' 8 KiB read buffer) + delta: the last read() /
+    fread() then returns a full buffer and end of file is only seen by the next one."""
+    k = rng.choice([1, 1, 2, 3, 5])
+    if rng.random() < 0.3:
+        fmt, suffix, delta = "lzma", ".lzma", rng.choice([0, 0, 0, -1, 1])
+    else:
+        fmt, suffix, delta = "xz", ".xz", rng.choice([0, 0, 0, -4, 4])
+    target = k * E.B + delta
+    args = ["-0", "--format=" + fmt] + ([] if fmt == "lzma" else ["-T1", "--check=" + rng.choice(["none", "crc32", "crc64", "sha256"])])
+    if fmt == "xz" and rng.random() < 0.5:
+        plain, pk = some_plain(E, rng, target // 2)
+        data = compress(E, plain, args, cdir, "plain.tmp")
+        if len(data) <= target:
+            data += bytes(target - len(data))       # Stream Padding, a multiple of four bytes
+            return data, suffix, "xz %s of %s(%d) + Stream Padding to %d*%d%+d bytes" % (" ".join(args), pk, len(plain), k, E.B, delta)
+    pool = rng.randbytes(target + 64)                # incompressible: size grows with the length almost byte by byte
+    n = max(0, target - 40)
+    best = None
+    for _ in range(40):
+        data = compress(E, pool[:n], args, cdir, "plain.tmp")
+        if len(data) == target:
+            return data, suffix, "xz %s of random(%d) = exactly %d*%d%+d bytes" % (" ".join(args), n, k, E.B, delta)
+        best = data
+        step = target - len(data)
+        n = max(0, min(len(pool), n + (step if abs(step) > 1 or fmt == "lzma" else (1 if step > 0 else -1))))
+    return best, suffix, "xz %s of random(%d) (%d bytes; exact size not reached)" % (" ".join(args), n, len(best))
+
+
 def gen_input(E, rng, cdir):
     """-> (bytes, suffix, info) with info = {cls, descr}."""
     r = rng.random()
+    if r < 0.12:
+        r = 2.0                                      # fall through to the common path below with a size-aligned base
+        base, suffix, descr = aligned_input(E, rng, cdir)
+        if rng.random() < 0.8:
+            return base, suffix, {"cls": "valid-size-aligned", "descr": descr}
+        d = M.truncate(rng, base) if rng.random() < 0.5 else M.garbage(rng, base)[0]
+        return d, suffix, {"cls": "corrupt", "descr": descr + " truncated or with trailing garbage (%d bytes)" % len(d)}
+    r = (r - 0.12) / 0.88
     if r < 0.07:
         kind = rng.choice(["text", "text", "random", "random", "empty", "short-magic"])
         data = {"text": M.text(rng, rng.choice([1, 12, 13, E.B, E.B + 1, rng.randint(1, 30000)])),
@@ -530,6 +567,8 @@ def rand_opts(rng, tool):
 def case_one(E, R, idx, rng, cdir, flavour="rel"):
     data, suffix, info = gen_input(E, rng, cdir)
     tool = rng.choice(["xz-dc"] * 8 + ["xz-d"] * 3 + ["xz-t"] * 2 + ["xzdec"] * 4 + ["lzmadec"] * 3)
+    if info["cls"] == "valid-size-aligned":  # every tool that reads this format gets its share of these files
+        tool = rng.choice(["xz-dc", "xz-d", "xz-t"] + (["lzmadec"] * 3 if suffix == ".lzma" else ["xzdec"] * 3))
     if tool == "xz-dc":
         sink = rng.choice(M.STDOUT_SINKS)
     elif tool == "xz-d":
